@@ -38,8 +38,8 @@ func (e *fnEnc) libCall(v ssa.Value, fn *ssa.Function, c *ssa.CallCommon, args [
 				return
 			}
 			used()
-			n := e.opaque(v)
-			e.vc.assume(sImp(n, fmt.Sprintf("(>= (s-len %s) (s-len %s))", args[0], args[1])))
+			e.setVal(v, fmt.Sprintf("(strprefix %s %s)", args[0], args[1]))
+			e.vc.assume(sImp(e.val[v], fmt.Sprintf("(>= (s-len %s) (s-len %s))", args[0], args[1])))
 			return
 		}
 	case "strings.HasSuffix":
@@ -54,12 +54,16 @@ func (e *fnEnc) libCall(v ssa.Value, fn *ssa.Function, c *ssa.CallCommon, args [
 			return
 		}
 		used()
-		n := e.opaque(v)
-		e.vc.assume(sImp(n, fmt.Sprintf("(>= (s-len %s) (s-len %s))", args[0], args[1])))
+		e.setVal(v, fmt.Sprintf("(strsuffix %s %s)", args[0], args[1]))
+		e.vc.assume(sImp(e.val[v], fmt.Sprintf("(>= (s-len %s) (s-len %s))", args[0], args[1])))
 		return
 	case "strings.Index", "strings.LastIndex", "strings.IndexAny", "strings.LastIndexAny":
 		used()
 		n := e.opaque(v)
+		if name == "strings.Index" {
+			// the result is a function of the two strings (contracts can name it: strIndex(s, sep))
+			e.vc.def(sEq(n, fmt.Sprintf("(strindex %s %s)", args[0], args[1])))
+		}
 		e.vc.assume(fmt.Sprintf("(and (>= %s (- 1)) (or (= %s (- 1)) (<= (+ %s %s) (s-len %s))))", n, n, n,
 			map[bool]string{true: fmt.Sprintf("(s-len %s)", args[1]), false: "1"}[!strings.HasSuffix(name, "Any")], args[0]))
 		if !strings.HasSuffix(name, "Any") {
@@ -98,6 +102,10 @@ func (e *fnEnc) libCall(v ssa.Value, fn *ssa.Function, c *ssa.CallCommon, args [
 		e.vc.assume(fmt.Sprintf("(and (> (c-ref %s) 0) (= (c-off %s) 0))", n, n))
 		if l, ok := lit(1); ok && l != "" && name == "strings.Split" {
 			e.vc.assume(fmt.Sprintf("(>= (c-len %s) 1)", n))
+			// the last piece is a function of (s, sep): contracts can name it as splitLast(s, sep)
+			ek := e.S().ElemKey(types.Typ[types.String])
+			h := e.heap(ek)
+			e.vc.assume(fmt.Sprintf("(= (select (select %s (c-ref %s)) (+ (c-off %s) (- (c-len %s) 1))) (splitlast %s %s))", h, n, n, n, args[0], args[1]))
 		} else {
 			e.vc.assume(fmt.Sprintf("(>= (c-len %s) 0)", n))
 		}
